@@ -1026,11 +1026,41 @@ type fidReq struct {
 	delay   time.Duration
 	inurl   bool
 	body    fidBody
-	fault   string // "" · reqhook (a user request hook fails) · resphook (a user response hook fails) · transport (the transport returns an error)
-	pair    bool   // this request and the next one are acquired and configured before either is sent
+	// request-level settings a user request hook makes on the Request it is given, i.e. last, just before it is sent
+	hookTimeout      time.Duration
+	hookUA, hookRef  string
+	hookHdr, hookPar string // SetHeader("X-Hook", v) / SetParam("hq", v); "" = not set
+	fault            string // "" · reqhook (a user request hook fails) · resphook (a user response hook fails) · transport (the transport returns an error)
+	pair             bool   // this request and the next one are acquired and configured before either is sent
 }
 
 func (rq *fidReq) conv() bool { return rq.acquire >= 3 }
+
+// the request-level values in force when the request is sent: what a request hook set last wins
+func (rq *fidReq) effTimeout() time.Duration {
+	if rq.hookTimeout > 0 {
+		return rq.hookTimeout
+	}
+	return rq.timeout
+}
+
+func (rq *fidReq) effUA() string {
+	if rq.hookUA != "" {
+		return rq.hookUA
+	}
+	return rq.ua
+}
+
+func (rq *fidReq) effRef() string {
+	if rq.hookRef != "" {
+		return rq.hookRef
+	}
+	return rq.ref
+}
+
+func (rq *fidReq) hooked() bool {
+	return rq.hookTimeout > 0 || rq.hookUA != "" || rq.hookRef != "" || rq.hookHdr != "" || rq.hookPar != ""
+}
 
 var errFidHook = errors.New("injected hook error")
 
@@ -1369,6 +1399,31 @@ func (g *fidGen) request(i int, clients []*fidClient) *fidReq {
 		rq.delay = simrt.PickS(s, 500*time.Millisecond, 1500*time.Millisecond, 2500*time.Millisecond, 3500*time.Millisecond, 4500*time.Millisecond, 6*time.Second)
 	}
 	rq.inurl = s.Chance(300)
+	if s.Chance(300) {
+		// a user request hook configures the request further (tag <request>h)
+		ht := rq.tag + "h"
+		if s.Chance(600) {
+			rq.hookTimeout = simrt.PickS(s, 3*time.Second, time.Second, 5*time.Second)
+			if rq.delay == 0 && s.Chance(700) {
+				rq.delay = simrt.PickS(s, 1500*time.Millisecond, 500*time.Millisecond, 2500*time.Millisecond, 3500*time.Millisecond, 4500*time.Millisecond, 6*time.Second)
+			}
+		}
+		if s.Chance(300) {
+			rq.hookUA = g.val(fidUAAlpha, ht)
+		}
+		if s.Chance(300) {
+			rq.hookRef = g.val(fidRefAlpha, ht)
+		}
+		if s.Chance(300) {
+			rq.hookHdr = "hv" + fidSep + ht
+		}
+		if s.Chance(300) {
+			rq.hookPar = g.val(fidValAlpha, ht)
+			if rq.hookPar == "" {
+				rq.hookPar = "hv" + fidSep + ht
+			}
+		}
+	}
 
 	b := &rq.body
 	b.kind = "none"
@@ -1531,6 +1586,9 @@ func (rq *fidReq) describe() string {
 		if b.form != nil {
 			body += " fields: " + fidDescribe("form", b.form.calls)
 		}
+	}
+	if rq.hooked() {
+		body += fmt.Sprintf(" | request hook: SetTimeout(%v) SetUserAgent(%q) SetReferer(%q) SetHeader(X-Hook,%q) SetParam(hq,%q) [zero/empty = not called]", rq.hookTimeout, rq.hookUA, rq.hookRef, rq.hookHdr, rq.hookPar)
 	}
 	if rq.fault != "" {
 		body += " | FAULT " + rq.fault
@@ -1696,6 +1754,7 @@ func clientFidelity(s *simrt.Sim, info *harness.RunInfo) {
 	for i := range reqs {
 		reqs[i] = g.request(i, clients)
 		allTags[reqs[i].tag] = true
+		allTags[reqs[i].tag+"h"] = true // what its request hook sets
 		if faults && i < nreq && s.Chance(400) {
 			// a user hook or the transport fails this request
 			reqs[i].fault = simrt.PickS(s, "resphook", "reqhook", "transport", "resphook")
@@ -1815,6 +1874,24 @@ func clientFidelity(s *simrt.Sim, info *harness.RunInfo) {
 		tok := tokOfURL(r.URL())
 		hookReq[tok] = r
 		inUse(r, tok) // also sees the Request of the shorthand methods, which the caller never holds
+		if i := atoi(tok[1:]); len(tok) > 1 && i >= 0 && i < len(reqs) && reqs[i].hooked() {
+			rq := reqs[i]
+			if rq.hookTimeout > 0 {
+				r.SetTimeout(rq.hookTimeout)
+			}
+			if rq.hookUA != "" {
+				r.SetUserAgent(rq.hookUA)
+			}
+			if rq.hookRef != "" {
+				r.SetReferer(rq.hookRef)
+			}
+			if rq.hookHdr != "" {
+				r.SetHeader("X-Hook", rq.hookHdr)
+			}
+			if rq.hookPar != "" {
+				r.SetParam("hq", rq.hookPar)
+			}
+		}
 		if faultOf(tok) == "reqhook" {
 			s.Count("fault_request_hook")
 			return errFidHook
@@ -2107,7 +2184,7 @@ func clientFidelity(s *simrt.Sim, info *harness.RunInfo) {
 	check := func(hn string, rq *fidReq, out *fidOutcome) {
 		tok := hn + strconv.Itoa(rq.idx)
 		cc := clients[rq.cli]
-		own := map[string]bool{cc.tag: true, rq.tag: true}
+		own := map[string]bool{cc.tag: true, rq.tag: true, rq.tag + "h": true}
 		stale = out.stale
 		defer func() { stale = false }()
 
@@ -2130,26 +2207,39 @@ func clientFidelity(s *simrt.Sim, info *harness.RunInfo) {
 		}
 
 		// time-out: the request-level one decides when set, else the client-level one
-		eff := rq.timeout
+		rto := rq.effTimeout() // the request-level one: what a request hook set last, else what the caller set
+		eff := rto
 		if eff == 0 {
 			eff = cc.timeout
 		}
 		idTO := "timeout"
-		if rq.timeout > 0 && cc.timeout > 0 {
+		if rto > 0 && cc.timeout > 0 {
 			idTO = "timeout-precedence"
 		}
 		toDesc := fmt.Sprintf("request-level timeout %v, client-level timeout %v, transport answers after %v", rq.timeout, cc.timeout, rq.delay)
-		if out.err != nil && rq.timeout == 0 && out.elapsed != eff {
+		if rq.hookTimeout > 0 {
+			toDesc = fmt.Sprintf("request-level timeout %v set by the caller and then %v by a user request hook, client-level timeout %v, transport answers after %v", rq.timeout, rq.hookTimeout, cc.timeout, rq.delay)
+		}
+		if out.err != nil && rto == 0 && out.elapsed != eff {
 			for _, o := range reqs {
-				if o != rq && o.timeout > 0 && o.timeout == out.elapsed {
+				if o != rq && o.effTimeout() > 0 && (o.timeout == out.elapsed || o.hookTimeout == out.elapsed) {
 					idTO = "leftover" // the time-out of another request struck
-					toDesc += fmt.Sprintf("; %v is the request-level timeout of %s", o.timeout, o.tag)
+					toDesc += fmt.Sprintf("; %v is a request-level timeout of %s", out.elapsed, o.tag)
 					break
 				}
 			}
 		}
-		if rq.timeout > 0 && cc.timeout > 0 && rq.delay > min(rq.timeout, cc.timeout) && rq.delay < max(rq.timeout, cc.timeout) {
+		if rto > 0 && cc.timeout > 0 && rq.delay > min(rto, cc.timeout) && rq.delay < max(rto, cc.timeout) {
 			s.Count("probe_timeout_precedence_decides_outcome")
+		}
+		if rq.hookTimeout > 0 && rq.fault == "" {
+			before := rq.timeout
+			if before == 0 {
+				before = cc.timeout
+			}
+			if (before > 0 && rq.delay > before) != (rq.delay > rq.hookTimeout) {
+				s.Count("probe_timeout_set_in_request_hook_decides_outcome")
+			}
 		}
 		if eff > 0 && rq.delay > eff {
 			switch {
@@ -2207,7 +2297,7 @@ func clientFidelity(s *simrt.Sim, info *harness.RunInfo) {
 		}
 
 		// user agent, referer
-		for _, x := range []struct{ comp, got, rv, cv string }{{"useragent", sn.ua, rq.ua, cc.ua}, {"referer", sn.referer, rq.ref, cc.ref}} {
+		for _, x := range []struct{ comp, got, rv, cv string }{{"useragent", sn.ua, rq.effUA(), cc.ua}, {"referer", sn.referer, rq.effRef(), cc.ref}} {
 			want := x.cv
 			if x.rv != "" {
 				want = x.rv
@@ -2220,10 +2310,17 @@ func clientFidelity(s *simrt.Sim, info *harness.RunInfo) {
 		}
 
 		// headers and query parameters: request level in addition to client level
-		checkMulti(tok, "header", fmt.Sprint(sn.hdr), sn.hdr, []*fidMulti{cc.hdr, rq.hdr}, nil, own)
+		var hookHdr []fidKVs
+		if rq.hookHdr != "" {
+			hookHdr = []fidKVs{{"X-Hook", []string{rq.hookHdr}}}
+		}
+		checkMulti(tok, "header", fmt.Sprint(sn.hdr), sn.hdr, []*fidMulti{cc.hdr, rq.hdr}, hookHdr, own)
 		var inurl []fidKVs
+		if rq.hookPar != "" {
+			inurl = append(inurl, fidKVs{"hq", []string{rq.hookPar}})
+		}
 		if rq.inurl {
-			inurl = []fidKVs{{"inurl", []string{rq.tag}}, {"both", []string{"u" + fidSep + rq.tag}}}
+			inurl = append(inurl, fidKVs{"inurl", []string{rq.tag}}, fidKVs{"both", []string{"u" + fidSep + rq.tag}})
 		}
 		checkMulti(tok, "query", "query string "+strconv.Quote(sn.query), parseQuery(sn.query), []*fidMulti{cc.q, rq.q}, inurl, own)
 
